@@ -57,6 +57,8 @@ type WorldOptions struct {
 	Cached     []model.Key // NS, Typ used
 	Inmem      []inmem.StateOption
 	RTLatency  func(op string, n int) time.Duration // latency before runtime-side calls
+	// RTPostLatency: time between a runtime-side Create / Update taking effect and the call returning to its caller
+	RTPostLatency func(op string, n int) time.Duration
 	RTFault    func(op string, k model.Key, n int) error
 	DelivDelay func(n int) time.Duration // delay before each aggregated watch batch is handed to the runtime; negative: delay, then coalesce the batches pending meanwhile
 	// InjectErrored, when non-nil, is consulted for every batch delivered to the runtime: returning an error
@@ -69,7 +71,7 @@ func NewWorld(o WorldOptions) (*World, error) {
 	ctx, cancel := context.WithCancel(context.Background())
 	w := &World{Ctx: ctx, Cancel: cancel, Start: time.Now(), Cur: map[model.Key]*model.Res{}}
 	w.Inner = NewNamespaced(o.Inmem...)
-	w.RTSt = &RecState{w: w, via: "rt", latency: o.RTLatency, fault: o.RTFault, delivDelay: o.DelivDelay, injectErrored: o.InjectErrored}
+	w.RTSt = &RecState{w: w, via: "rt", latency: o.RTLatency, postLatency: o.RTPostLatency, fault: o.RTFault, delivDelay: o.DelivDelay, injectErrored: o.InjectErrored}
 	w.Ext = &RecState{w: w, via: "ext"}
 
 	var ropts []options.Option
@@ -218,6 +220,8 @@ type RecState struct {
 	w             *World
 	via           string
 	latency       func(op string, n int) time.Duration
+	postLatency   func(op string, n int) time.Duration
+	npost         int
 	fault         func(op string, k model.Key, n int) error
 	delivDelay    func(n int) time.Duration
 	injectErrored func(n int) error
@@ -316,7 +320,6 @@ func (r *RecState) Create(ctx context.Context, res resource.Resource, o ...state
 	}
 
 	r.w.mu.Lock()
-	defer r.w.mu.Unlock()
 
 	err := r.w.Inner.Create(ctx, res, o...)
 	if err == nil {
@@ -325,7 +328,30 @@ func (r *RecState) Create(ctx context.Context, res resource.Resource, o ...state
 		r.w.Log = append(r.w.Log, LogEntry{T: time.Since(r.w.Start), Via: r.via, Owner: optOwnerCreate(o), Commit: model.Commit{Kind: model.Created, New: m.Clone()}})
 	}
 
+	r.w.mu.Unlock()
+	r.post(ctx, "Create", err)
+
 	return err
+}
+
+// post delays the return of a write that took effect (never under a lock: the fake clock only advances while
+// every goroutine of the bubble is durably blocked).
+func (r *RecState) post(ctx context.Context, op string, err error) {
+	if err != nil || r.postLatency == nil {
+		return
+	}
+
+	r.mu.Lock()
+	n := r.npost
+	r.npost++
+	r.mu.Unlock()
+
+	if d := r.postLatency(op, n); d > 0 {
+		select {
+		case <-ctx.Done():
+		case <-time.After(d):
+		}
+	}
 }
 
 // Update implements state.CoreState.
@@ -336,7 +362,6 @@ func (r *RecState) Update(ctx context.Context, res resource.Resource, o ...state
 	}
 
 	r.w.mu.Lock()
-	defer r.w.mu.Unlock()
 
 	err := r.w.Inner.Update(ctx, res, o...)
 	if err == nil {
@@ -345,6 +370,9 @@ func (r *RecState) Update(ctx context.Context, res resource.Resource, o ...state
 		r.w.Cur[k] = m
 		r.w.Log = append(r.w.Log, LogEntry{T: time.Since(r.w.Start), Via: r.via, Owner: optOwnerUpdate(o), Commit: model.Commit{Kind: model.Updated, New: m.Clone(), Old: old.Clone()}})
 	}
+
+	r.w.mu.Unlock()
+	r.post(ctx, "Update", err)
 
 	return err
 }
